@@ -244,7 +244,11 @@ def run_stream(stream, tier, seed, shard, nshards, scale=1.0):
         try:
             run_state_machine_as_test(Machine, settings=sett)
         except Fail as f:
-            return stats, _failrec(stream, last.get("fail", f), last.get("case"))
+            f = last.get("fail", f)
+            case = last.get("case")
+            if stream.reduce is not None and case is not None:
+                case, f = _reduce(stream, case, f)
+            return stats, _failrec(stream, f, case)
         return stats, None
 
     test = hypothesis.seed(sd)(sett(given(stream.strategy)(guarded)))
@@ -253,7 +257,7 @@ def run_stream(stream, tier, seed, shard, nshards, scale=1.0):
     except Fail as f:
         f = last.get("fail", f)
         case = last.get("case")
-        if stream.reduce is not None and stream.shrink:
+        if stream.reduce is not None:
             case, f = _reduce(stream, case, f)
         return stats, _failrec(stream, f, case)
     return stats, None
